@@ -1,5 +1,6 @@
 """Implementation side of C03: split / merge / update / pop / clone / state on generated object graphs."""
 import impl_graph as IG
+import jax.numpy as jnp
 import common
 import jax
 import numpy as np
@@ -27,7 +28,22 @@ def run_case(c):
   def rt():
     g, s = nnx.split(root)
     m = nnx.merge(g, s)
-    return {'canon_equal': IG.canon(m) == before, 'fresh': not (set(IG.obj_ids(m)) & ids_before), 'canon': IG.canon(m)}
+    res = {'canon_equal': IG.canon(m) == before, 'fresh': not (set(IG.obj_ids(m)) & ids_before), 'canon': IG.canon(m)}
+    # the states can be merged again: what is done to the first copy (metadata set and removed in place, values changed) reaches neither
+    # the second copy nor the states nor g
+    flat_before = IG.enc_flat(s)
+    for o in IG.obj_ids(m).values():
+      if isinstance(o, nnx.Variable):
+        md = o.get_metadata()
+        for k in list(md):
+          if k not in ('on_get_value', 'on_set_value', 'on_create_value', 'on_add_axis', 'on_remove_axis'):
+            del md[k]
+        md['scribble'] = 'x'
+        o.raw_value = o.raw_value + 1000
+    m2 = nnx.merge(g, s)
+    res['second_merge_equal'] = IG.canon(m2) == before and not (set(IG.obj_ids(m2)) & set(IG.obj_ids(m)))
+    res['states_untouched'] = IG.enc_flat(s) == flat_before and IG.canon(root) == before
+    return res
   out['roundtrip'] = safe(rt)
   out['canon'] = before
   # ---- split with filters, merge in another order
@@ -79,6 +95,32 @@ def run_case(c):
       popped = nnx.pop(root4, IG.dec_filter(c['pop_filter']))
       return {'popped': IG.enc_flat(popped), 'canon_after': IG.canon(root4)}
     out['pop'] = safe(pp)
+  # ---- Variables with value hooks: update / state / split / merge move RAW values, the hooks run only on user access
+  def hooks():
+    class Scaled(nnx.Param):
+      def on_set_value(self, value):
+        return value * 2
+
+      def on_get_value(self, value):
+        return value + 1
+
+    class H(nnx.Module):
+      def __init__(self):
+        self.a = Scaled(jnp.asarray(5, dtype=jnp.int64))
+        self.b = nnx.BatchStat(jnp.asarray(7, dtype=jnp.int64), on_set_value=lambda v, x: x * 3)
+        self.c = self.a
+    h = H()
+    raw0 = (int(h.a.raw_value), int(h.b.raw_value))
+    nnx.update(h, nnx.state(h))
+    raw1 = (int(h.a.raw_value), int(h.b.raw_value))
+    g, p, r = nnx.split(h, nnx.Param, ...)
+    nnx.update(h, r, p)
+    raw2 = (int(h.a.raw_value), int(h.b.raw_value))
+    m = nnx.merge(g, p, r)
+    raw3 = (int(m.a.raw_value), int(m.b.raw_value))
+    h.a.value = 4          # user access: the hook runs once
+    return {'raw': [raw0, raw1, raw2, raw3], 'set_once': int(h.a.raw_value), 'get': int(h.a.value), 'shared': m.c is m.a}
+  out['hooks'] = safe(hooks)
   # ---- iteration order
   out['iter_graph_paths'] = safe(lambda: [list(p) for p, _ in nnx.iter_graph(root)])
   return out
